@@ -17,6 +17,8 @@ PROPS = {
     "g13": "C15", "g14": "C11 C08",
     "f1": "C12", "f2": "C12", "f3": "C19", "f4": "C19", "f5": "C19", "f6": "C18", "f7": "C07", "f8": "C07", "f9": "C05 C15", "f10": "C15",
     "f11": "C04 C20", "f12": "C08 C11",
+    "e1": "C05 C06 C15", "e2": "C05", "e3": "C15", "e4": "C15", "e5": "C02 C06", "e6": "C02 C13 C06", "e7": "C01 C03 C06 C08 C09 C20", "e8": "C02 C08 C09",
+    "e9": "C13 C09", "e10": "C14", "e11": "C12", "e12": "C07",
 }
 
 
